@@ -85,8 +85,8 @@ def eq(x, y):
             return False
     elif isinstance(y, (tuple, list, dict, np.ndarray, pd.DataFrame, pd.Series)) and getattr(x, 'shape', ()) == ():
         return False # x is a scalar, y a container: do not let x == y broadcast over the cells of y
-    elif isinstance(x, float) and np.isnan(x):
-        return isinstance(y, float) and np.isnan(y)    
+    elif isinstance(x, (float, np.floating)) and np.isnan(x):
+        return isinstance(y, (float, np.floating)) and bool(np.isnan(y))
     elif isinstance(x, partial):
         return type(x) == type(y) and x.func == y.func and eq(x.keywords, y.keywords) and eq(x.args, y.args)
     else:
